@@ -122,7 +122,11 @@ namespace BitSerializer::MsgPack::Detail
 
 	void CMsgPackStringWriter::WriteValue(int16_t value)
 	{
-		if (value < std::numeric_limits<int8_t>::min() || value > std::numeric_limits<int8_t>::max()) {
+		// Positive value is written as unsigned when it is more compact
+		if (value > std::numeric_limits<int8_t>::max() && value <= std::numeric_limits<uint8_t>::max()) {
+			WriteValue(static_cast<uint8_t>(value));
+		}
+		else if (value < std::numeric_limits<int8_t>::min() || value > std::numeric_limits<int8_t>::max()) {
 			PushValue(mOutputString, '\xD1', value);
 		}
 		else {
@@ -132,7 +136,11 @@ namespace BitSerializer::MsgPack::Detail
 
 	void CMsgPackStringWriter::WriteValue(int32_t value)
 	{
-		if (value < std::numeric_limits<int16_t>::min() || value > std::numeric_limits<int16_t>::max()) {
+		// Positive value is written as unsigned when it is more compact
+		if (value > std::numeric_limits<int16_t>::max() && value <= std::numeric_limits<uint16_t>::max()) {
+			WriteValue(static_cast<uint16_t>(value));
+		}
+		else if (value < std::numeric_limits<int16_t>::min() || value > std::numeric_limits<int16_t>::max()) {
 			PushValue(mOutputString, '\xD2', value);
 		}
 		else {
@@ -142,7 +150,11 @@ namespace BitSerializer::MsgPack::Detail
 
 	void CMsgPackStringWriter::WriteValue(int64_t value)
 	{
-		if (value < std::numeric_limits<int32_t>::min() || value > std::numeric_limits<int32_t>::max()) {
+		// Positive value is written as unsigned when it is more compact
+		if (value > std::numeric_limits<int32_t>::max() && value <= std::numeric_limits<uint32_t>::max()) {
+			WriteValue(static_cast<uint32_t>(value));
+		}
+		else if (value < std::numeric_limits<int32_t>::min() || value > std::numeric_limits<int32_t>::max()) {
 			PushValue(mOutputString, '\xD3', value);
 		}
 		else {
@@ -335,7 +347,11 @@ namespace BitSerializer::MsgPack::Detail
 
 	void CMsgPackStreamWriter::WriteValue(int16_t value)
 	{
-		if (value < std::numeric_limits<int8_t>::min() || value > std::numeric_limits<int8_t>::max()) {
+		// Positive value is written as unsigned when it is more compact
+		if (value > std::numeric_limits<int8_t>::max() && value <= std::numeric_limits<uint8_t>::max()) {
+			WriteValue(static_cast<uint8_t>(value));
+		}
+		else if (value < std::numeric_limits<int8_t>::min() || value > std::numeric_limits<int8_t>::max()) {
 			PushValue(mOutputStream, '\xD1', value);
 		}
 		else {
@@ -345,7 +361,11 @@ namespace BitSerializer::MsgPack::Detail
 
 	void CMsgPackStreamWriter::WriteValue(int32_t value)
 	{
-		if (value < std::numeric_limits<int16_t>::min() || value > std::numeric_limits<int16_t>::max()) {
+		// Positive value is written as unsigned when it is more compact
+		if (value > std::numeric_limits<int16_t>::max() && value <= std::numeric_limits<uint16_t>::max()) {
+			WriteValue(static_cast<uint16_t>(value));
+		}
+		else if (value < std::numeric_limits<int16_t>::min() || value > std::numeric_limits<int16_t>::max()) {
 			PushValue(mOutputStream, '\xD2', value);
 		}
 		else {
@@ -355,7 +375,11 @@ namespace BitSerializer::MsgPack::Detail
 
 	void CMsgPackStreamWriter::WriteValue(int64_t value)
 	{
-		if (value < std::numeric_limits<int32_t>::min() || value > std::numeric_limits<int32_t>::max()) {
+		// Positive value is written as unsigned when it is more compact
+		if (value > std::numeric_limits<int32_t>::max() && value <= std::numeric_limits<uint32_t>::max()) {
+			WriteValue(static_cast<uint32_t>(value));
+		}
+		else if (value < std::numeric_limits<int32_t>::min() || value > std::numeric_limits<int32_t>::max()) {
 			PushValue(mOutputStream, '\xD3', value);
 		}
 		else {
